@@ -35,6 +35,10 @@ def _rel(t, left, right):
     while isinstance(t, ast.UnaryOp) and isinstance(t.op, ast.Not):
         neg = not neg
         t = t.operand
+    OPMOD = {'operator.lt': ast.Lt, 'operator.le': ast.LtE, 'operator.eq': ast.Eq, 'operator.ne': ast.NotEq, 'operator.ge': ast.GtE, 'operator.gt': ast.Gt}
+    if isinstance(t, ast.Call) and norm(t.func) in OPMOD and len(t.args) == 2 and not t.keywords:
+        # the operator module spells the comparison operators as functions
+        t = ast.Compare(left=t.args[0], ops=[OPMOD[norm(t.func)]()], comparators=[t.args[1]])
     if not (isinstance(t, ast.Compare) and len(t.ops) == 1 and type(t.ops[0]) in FLIP):
         return None
     l, r = norm(t.left), norm(t.comparators[0])
@@ -249,6 +253,21 @@ class PathInterp:
             env = dict(env)
             r = self.hooks.ev_assign(self, st, env, facts)
             if r is NotImplemented:
+                v_ = st.value
+                if isinstance(v_, ast.IfExp) or (isinstance(v_, ast.BinOp) and isinstance(v_.op, ast.Sub) and isinstance(v_.left, ast.Compare)
+                                                 and isinstance(v_.right, ast.Compare)):
+                    # a value that depends on a comparison: one world per outcome
+                    out = []
+                    for val, f2 in self.ev_return(v_, env, facts):
+                        e2 = dict(env)
+                        if isinstance(val, int):
+                            e2[st.targets[0].id] = Sym('int', aff=Aff.const(val))
+                        elif isinstance(val, tuple) and val[0] == 'delegate':
+                            e2[st.targets[0].id] = Sym('delegate', args=val[1])
+                        else:
+                            raise AnalysisError('%s: conditional value outside the comparison vocabulary: %s' % (self.site, norm(v_)[:60]))
+                        out.append(('fall', None, e2, f2))
+                    return out
                 env[st.targets[0].id] = self.ev(st.value, env, facts)
             return [('fall', None, env, facts)]
         if isinstance(st, ast.If):
@@ -332,7 +351,23 @@ class CompareHooks:
                 return Sym('delegate', args=((a.side, a.attr, a.default), (b.side, b.attr, b.default)))
         if fn in ('isinstance', 'str', 'BaseVersion'):
             return Sym('opaque')
+        if isinstance(c.func, ast.Attribute) and isinstance(c.func.value, ast.Name) and c.func.value.id in ('self', 'cls') and len(c.args) == 1 \
+                and norm(c.args[0]) == self.other and self._is_conversion(c.func.attr):
+            return Sym('opaque')
         return NotImplemented
+
+    def _is_conversion(self, name):
+        """a helper of the class that hands back its argument, as it is or re-read as BaseVersion(str(arg)) (the conversion prologue)"""
+        h = self.f.module.funcs.get('%s.%s' % (self.f.cls, name))
+        if h is None:
+            return False
+        ps = [a.arg for a in h.node.args.args if a.arg not in ('self', 'cls')]
+        if len(ps) != 1:
+            return False
+        rets = [r for r in ast.walk(h.node) if isinstance(r, ast.Return)]
+        ok = {ps[0], 'BaseVersion(str(%s))' % ps[0], 'BaseVersion(%s)' % ps[0]}
+        stores = [n for n in ast.walk(h.node) if isinstance(n, ast.Name) and isinstance(n.ctx, ast.Store) and n.id == ps[0]]
+        return bool(rets) and not stores and all(r.value is not None and norm(r.value) in ok for r in rets)
 
     def ev_compare(self, it, t, env, facts):
         l, r = t.left, t.comparators[0]
@@ -503,7 +538,8 @@ def list_truth(name, env, la, lb):
 
 def analyse_list_comparator(f, elem_kind):
     """per position configuration: outcomes of one loop step.  returns dict cfgname -> list of (kind, payload, facts, consumed)"""
-    body = f.node.body
+    fnode_, _inl = normalize.inline_helpers(f, depth=2, skip=('_version_cmp_string', '_version_cmp_part', '_order'))
+    body = fnode_.body
     params = f.params()
     va, vb = params[1], params[2]
     la = lb = None
